@@ -130,9 +130,15 @@ func extractHasVals(h *gripql.GraphStatement_Has) []string {
 				vals = []string{l}
 			}
 		case gripql.Condition_WITHIN:
-			v := val.([]interface{})
-			for _, x := range v {
-				vals = append(vals, x.(string))
+			if v, ok := val.([]interface{}); ok {
+				for _, x := range v {
+					l, ok := x.(string)
+					if !ok {
+						//not a list of ids/labels; leave the statement to the Has step
+						return []string{}
+					}
+					vals = append(vals, l)
+				}
 			}
 		default:
 			// do nothing
